@@ -14,6 +14,8 @@ import Acme.Driver.Payload
 import Acme.Driver.Mux
 import Acme.Driver.Graph
 import Acme.Driver.Dbc
+import Acme.Driver.Md
+import Acme.Driver.Conv
 
 open Acme.Driver
 
@@ -35,6 +37,8 @@ def stepLine (s : DState) (line : String) : DState × String :=
   | "mx" :: rest => let (a, o) := MuxD.handle s.mx rest; ({ s with mx := a }, o)
   | "gr" :: rest => let (a, o) := GraphD.handle s.gr rest; ({ s with gr := a }, o)
   | "dbc" :: rest => (s, DbcD.handle rest)
+  | "md" :: rest => (s, MdD.handle rest)
+  | "cv" :: rest => (s, ConvD.handle rest)
   | _ => (s, "bad-op")
 
 partial def loop (hin : IO.FS.Stream) (hout : IO.FS.Stream) (s : DState) : IO Unit := do
